@@ -444,9 +444,13 @@ func (sg *skGen) genMergeHistory(maxN int) {
 	r := sg.g.rng
 	parts := r.Range(1, 6)
 	single := 9
-	sg.line("K %d 1 %s", single, sg.storeSpec(nonCollapsing))
+	x := ""
+	if r.Bool(30) {
+		x = " x" // exact statistics merge along the same tree
+	}
+	sg.line("K %d 1 %s%s", single, sg.storeSpec(nonCollapsing), x)
 	for p := 1; p <= parts; p++ {
-		sg.line("K %d 1 %s", p, sg.storeSpec(nonCollapsing))
+		sg.line("K %d 1 %s%s", p, sg.storeSpec(nonCollapsing), x)
 	}
 	// parts that were used before, then cleared: they must behave like new sketches in every merge
 	for p := 1; p <= parts; p++ {
@@ -497,7 +501,7 @@ func (sg *skGen) genMergeHistory(maxN int) {
 	}
 	root := live[0]
 	if r.Bool(30) { // merging an empty sketch is a no-op
-		sg.line("K 8 1 %s", sg.storeSpec(nonCollapsing))
+		sg.line("K 8 1 %s%s", sg.storeSpec(nonCollapsing), x)
 		sg.line("merge %d 8", root)
 	}
 	sg.ensureValues(root)
